@@ -337,7 +337,10 @@ func runCP(c cpCase, s3 bool) *cpResult {
 		defer restore()
 	}
 	r.cache = otter.Must(opts)
-	defer r.cache.StopAllGoroutines()
+	defer func() {
+		r.cache.StopAllGoroutines()
+		r.cache = nil // break the handler-closure -> cpRun -> *Cache cycle (see vh.Env.Close)
+	}()
 	if s3 {
 		for _, ops := range c.Threads {
 			ops := ops
